@@ -100,6 +100,8 @@ class ApplyContract(Contract):
             if len(ctx.samples) < 10:
                 ctx.sample(det)
         # outside the range
+        ctx.clause('outside-characters', n - (b - a))
+        ctx.clause('inside-characters', b - a)
         for i in list(range(0, a)) + list(range(b, n)):
             if not O.prec_equiv(o.texts[i], p.texts[i]):
                 ctx.violation('outside-changed', dict(det, index=i), call, mech='apply-outside-changed')
@@ -131,6 +133,7 @@ class ApplyContract(Contract):
                                                                        now=post_st.get(g)), call,
                                       mech='apply-untouched-effect-changed')
                         return
+            ctx.clause('topmost-false-display' if not topmost else ('topmost-true-display' if i < first_begin else 'topmost-true-after-next-beginning'))
             if not topmost:
                 etouch = set()
                 for t in o.texts[i]:
